@@ -224,6 +224,57 @@ def incompleteCounterexampleF (cx : Cx) (fuel : Nat) (existing : List Pat) : Opt
   | some (some [p]) => some (some p)
   | some (some ps) => some (some (.struct none ps))
 
+/-! ### Fuel that always suffices
+
+Weights (a row weighs the product of `1 + patW p`, a constructor pattern the product over its
+arguments, an or-pattern the sum over its alternatives, a wildcard nothing) and the largest
+constructor arity; `Lemmas/UsefulTerm.lean` proves that `usefulFuel` / `cexFuel` are enough
+(`useful_fuel_bound`, `cex_fuel_bound` in `Props/C07.lean`), so the drivers run with exactly this
+fuel. -/
+
+mutual
+def patW : Pat → Nat
+  | .wild => 0
+  | .struct _ args => rowW args
+  | .or ps => sumW ps
+def rowW : List Pat → Nat
+  | [] => 1
+  | p :: ps => (1 + patW p) * rowW ps
+def sumW : List Pat → Nat
+  | [] => 0
+  | p :: ps => (1 + patW p) + sumW ps
+end
+
+def matW : Matrix → Nat
+  | [] => 0
+  | r :: P => rowW r + matW P
+
+mutual
+def arP : Pat → Nat
+  | .wild => 0
+  | .struct _ args => max args.length (arL args)
+  | .or ps => arL ps
+def arL : List Pat → Nat
+  | [] => 0
+  | p :: ps => max (arP p) (arL ps)
+end
+
+def arM : Matrix → Nat
+  | [] => 0
+  | r :: P => max (arL r) (arM P)
+
+def usefulFuel (P : Matrix) (q : Row) : Nat :=
+  (matW P + rowW q) * (max (arM P) (arL q) + 1) + q.length + 1
+
+def cexFuel (P : Matrix) (n : Nat) : Nat := matW P * (arM P + 1) + n + 1
+
+/-- `is_additional_pattern_useful` / `incomplete_counterexample` without a fuel argument -/
+def isAdditionalPatternUseful (cx : Cx) (existing : List Pat) (p : Pat) : Option Bool :=
+  isAdditionalPatternUsefulF cx (usefulFuel (existing.map fun e => [e]) [p]) existing p
+
+def incompleteCounterexample (cx : Cx) (existing : List Pat) : Option (Option Pat) :=
+  incompleteCounterexampleF cx (cexFuel (existing.map fun e => [e]) 1) existing
+
 /-! ## Values, matching, types -/
 
 /-- Run-time values as far as patterns can see them: a variant value, a struct/tuple value
@@ -339,27 +390,36 @@ def rankCheck (defs : List Def) (rank : List Nat) : Bool :=
 class's type parameters in every field type.  The usefulness model works on *instances*
 (`Sig : type id → Def`); `monoCheck` decides that a table of instances is exactly what this
 substitution produces from the generic class declarations, so the instantiation itself is inside the
-model (the protocol sends both; the driver answers `mono=1`).  One type parameter per class. -/
+model (the protocol sends both; the driver answers `mono=1`).  Any number of type parameters. -/
 
 inductive GTy where
   | int
-  | tparam
-  | cls (c : Nat) (arg : Option GTy)
+  | tparam (i : Nat)
+  | cls (c : Nat) (args : List GTy)
   deriving Repr, Inhabited
 
+mutual
 def GTy.beq : GTy → GTy → Bool
   | .int, .int => true
-  | .tparam, .tparam => true
-  | .cls c none, .cls d none => c = d
-  | .cls c (some a), .cls d (some b) => c = d && GTy.beq a b
+  | .tparam i, .tparam j => i = j
+  | .cls c as, .cls d bs => c = d && GTy.beqL as bs
   | _, _ => false
+def GTy.beqL : List GTy → List GTy → Bool
+  | [], [] => true
+  | a :: as, b :: bs => GTy.beq a b && GTy.beqL as bs
+  | _, _ => false
+end
 
-/-- `subst_type` with the map {T ↦ arg} -/
-def substTy (arg : Option GTy) : GTy → GTy
+mutual
+/-- `subst_type` with the map {Tᵢ ↦ argsᵢ} -/
+def substTy (args : List GTy) : GTy → GTy
   | .int => .int
-  | .tparam => arg.getD .int
-  | .cls c none => .cls c none
-  | .cls c (some a) => .cls c (some (substTy arg a))
+  | .tparam i => args.getD i .int
+  | .cls c as => .cls c (substTyL args as)
+def substTyL (args : List GTy) : List GTy → List GTy
+  | [] => []
+  | a :: as => substTy args a :: substTyL args as
+end
 
 inductive GDef where
   | enum (variants : List (Nat × List GTy))
@@ -367,13 +427,13 @@ inductive GDef where
   deriving Repr, Inhabited
 
 /-- field types of one instance agree with the substituted generic field types -/
-def fieldsAgree (tyOf : List GTy) (arg : Option GTy) : List Nat → List GTy → Bool
+def fieldsAgree (tyOf : List GTy) (arg : List GTy) : List Nat → List GTy → Bool
   | [], [] => true
   | i :: is, g :: gs => (match tyOf[i]? with | some t => GTy.beq t (substTy arg g) | none => false) &&
       fieldsAgree tyOf arg is gs
   | _, _ => false
 
-def variantsAgree (tyOf : List GTy) (arg : Option GTy) : List (Nat × List Nat) → List (Nat × List GTy) → Bool
+def variantsAgree (tyOf : List GTy) (arg : List GTy) : List (Nat × List Nat) → List (Nat × List GTy) → Bool
   | [], [] => true
   | (n, is) :: vs, (m, gs) :: gvs => n = m && fieldsAgree tyOf arg is gs && variantsAgree tyOf arg vs gvs
   | _, _ => false
@@ -437,6 +497,10 @@ def bindInsert (m : Binds) (name : Nat) (ty : Option Nat) : Binds :=
   (name, ty) :: m.filter (fun x => x.1 ≠ name)
 
 def bindMerge (m later : Binds) : Binds := later.foldr (fun x acc => bindInsert acc x.1 x.2) m
+
+/-- the same name is bound by two elements of one tuple / object / variant pattern: the SSA pass
+reports `NameAlreadyBound` (ssa_analysis.rs; or-alternatives are separate scopes) -/
+def bindsOverlap (a b : Binds) : Bool := a.any (fun x => b.any (fun y => y.1 = x.1))
 
 /-- `assignability_check` on the types that can occur here: `any` meets everything, two type
 instances are assignable iff they are the same instance (type_system.rs:87-131). -/
@@ -531,8 +595,8 @@ def normTuple (sig : Sig) (wildOnBad : Bool) : List SPat → List Nat → NormL
   | p :: ps, t :: ts =>
     let a := normalize sig wildOnBad p (some t)
     let r := normTuple sig wildOnBad ps ts
-    { pats := a.pat :: r.pats, err := a.err || r.err, panic := a.panic || r.panic,
-      binds := bindMerge a.binds r.binds }
+    { pats := a.pat :: r.pats, err := a.err || r.err || bindsOverlap a.binds r.binds,
+      panic := a.panic || r.panic, binds := bindMerge a.binds r.binds }
 /-- elements of an object pattern, updating the vector of abstract nodes in place -/
 def normObject (sig : Sig) (wildOnBad : Bool) (fs : List (Nat × Nat)) :
     List SPat → List Nat → List Pat → NormL
@@ -543,8 +607,10 @@ def normObject (sig : Sig) (wildOnBad : Bool) (fs : List (Nat × Nat)) :
     | some (i, t) =>
       let a := normalize sig wildOnBad p (some t)
       let r := normObject sig wildOnBad fs es names (acc.set i a.pat)
-      { pats := r.pats, err := a.err || r.err, panic := a.panic || r.panic,
-        binds := bindMerge a.binds r.binds }
+      -- a field destructured twice is an error since fix 76a01ae (`NameAlreadyBound`,
+      -- main_checker.rs:1300-1304); the last mention still wins in the abstract node
+      { pats := r.pats, err := a.err || r.err || names.contains name || bindsOverlap a.binds r.binds,
+        panic := a.panic || r.panic, binds := bindMerge a.binds r.binds }
     | none =>
       -- unknown field: error, checked against `any`, stored at the parser's `field_order` = 0
       let a := normalize sig wildOnBad p none
@@ -558,6 +624,96 @@ def normAll (sig : Sig) (wildOnBad : Bool) : List SPat → Option Nat → NormL
     let r := normAll sig wildOnBad ps ty
     { pats := a.pat :: r.pats, err := a.err || r.err, panic := a.panic || r.panic,
       binds := [], each := a.binds :: r.each }
+end
+
+/-! ## Source-level matching (the specification the normalisation must preserve)
+
+When does a value of type `t` match a *source* pattern?  Stated directly on source patterns
+(language semantics of patterns: a tuple/variant pattern constrains the leading fields it lists,
+an object pattern constrains the fields it names, in any order; identifiers and `_` match
+everything; `|` is disjunction), without going through abstract patterns. -/
+
+mutual
+def smatch (sig : Sig) : SPat → Nat → Val → Bool
+  | .id _, _, _ => true
+  | .wild, _, _ => true
+  | .or ps, t, v => smatchAny sig ps t v
+  | .tuple ps, t, v =>
+    match sig t, v with
+    | .struct fs, .con none ws => smatchTuple sig ps (fs.map (·.2)) ws
+    | _, _ => false
+  | .object names ps, t, v =>
+    match sig t, v with
+    | .struct fs, .con none ws => smatchObject sig fs ws ps names
+    | _, _ => false
+  | .variant tag ps, t, v =>
+    match sig t, v with
+    | .enum cls vs, .con (some c) ws =>
+      decide (c.cls = cls) && decide (c.name = tag) &&
+        (match findVariant vs tag with
+          | some tys => smatchTuple sig ps tys ws
+          | none => false)
+    | _, _ => false
+def smatchAny (sig : Sig) : List SPat → Nat → Val → Bool
+  | [], _, _ => false
+  | p :: ps, t, v => smatch sig p t v || smatchAny sig ps t v
+def smatchTuple (sig : Sig) : List SPat → List Nat → List Val → Bool
+  | [], _, _ => true                                 -- fields that are not listed are unconstrained
+  | p :: ps, t :: ts, w :: ws => smatch sig p t w && smatchTuple sig ps ts ws
+  | _ :: _, _, _ => false
+def smatchObject (sig : Sig) (fs : List (Nat × Nat)) (ws : List Val) : List SPat → List Nat → Bool
+  | [], _ => true
+  | _ :: _, [] => false
+  | p :: ps, name :: names =>
+    (match fieldIndex fs name with
+      | some (i, t) => (match ws[i]? with | some w => smatch sig p t w | none => false)
+      | none => false) && smatchObject sig fs ws ps names
+end
+
+/-- Source patterns whose abstract node is built without a bad-pattern default or a dropped element:
+tuple / variant patterns list at most as many elements as there are fields (fewer = omitted
+fields), object patterns name known fields, each at most once, variant tags exist, the alternatives
+of an or-pattern bind consistently.  (Everything else is reported as an error by the checker.) -/
+def nodupNat : List Nat → Bool
+  | [] => true
+  | x :: xs => !xs.contains x && nodupNat xs
+
+mutual
+def swf (sig : Sig) (w : Bool) : SPat → Nat → Bool
+  | .id _, _ => true
+  | .wild, _ => true
+  | .or ps, t =>
+    let r := normAll sig w ps (some t)
+    swfAll sig w ps t && !((r.each.drop 1).any (fun a => !bindsConsistent (r.each.headD []) a))
+  | .tuple ps, t =>
+    match sig t with
+    | .struct fs => decide (ps.length ≤ fs.length) && swfTuple sig w ps (fs.map (·.2))
+    | _ => false
+  | .object names ps, t =>
+    match sig t with
+    | .struct fs => nodupNat names && decide (names.length = ps.length) && swfObject sig w fs ps names
+    | _ => false
+  | .variant tag ps, t =>
+    match sig t with
+    | .enum _ vs =>
+      (match findVariant vs tag with
+        | some tys => decide (ps.length ≤ tys.length) && swfTuple sig w ps tys
+        | none => false)
+    | _ => false
+def swfAll (sig : Sig) (w : Bool) : List SPat → Nat → Bool
+  | [], _ => true
+  | p :: ps, t => swf sig w p t && swfAll sig w ps t
+def swfTuple (sig : Sig) (w : Bool) : List SPat → List Nat → Bool
+  | [], _ => true
+  | p :: ps, t :: ts => swf sig w p t && swfTuple sig w ps ts
+  | _ :: _, [] => false
+def swfObject (sig : Sig) (w : Bool) (fs : List (Nat × Nat)) : List SPat → List Nat → Bool
+  | [], _ => true
+  | _ :: _, [] => false
+  | p :: ps, name :: names =>
+    (match fieldIndex fs name with
+      | some (_, t) => swf sig w p t
+      | none => false) && swfObject sig w fs ps names
 end
 
 end SamVerif.Useful
